@@ -1,5 +1,5 @@
 (* Props/C11.v — cw20-ics20: escrow always covers outstanding vouchers, channel by channel. *)
-Require Import CwPlus.Params CwPlus.Base CwPlus.AMap CwPlus.Ics20Model CwPlus.Ics20Lemmas CwPlus.Ics20Lemmas2.
+Require Import CwPlus.Params CwPlus.Base CwPlus.AMap CwPlus.Ics20Model CwPlus.Ics20Lemmas CwPlus.Ics20Lemmas2 CwPlus.Ics20Lemmas3.
 Open Scope N_scope.
 
 (* For every honest key (every native denom; every cw20 token that calls Receive only from inside its
@@ -38,9 +38,15 @@ Theorem c11_foreign_nothing : forall st p,
   do_receive st p = (st, AckErr, []).
 Proof. exact foreign_packet_releases_nothing. Qed.
 
-(* PARTIAL: migrations that rewrite balances (from the 0.11 - 0.13 layouts) are excluded from the
-   history above (honest_call (WMigrate _) = False); they set outstanding := holdings for the single
-   open channel and are decided on the implementation by S_C11 after every migrate step. *)
+(* ... and the same with migrations anywhere in the history, the balance-rewriting ones (from the 0.11
+   - 0.13 layouts, which set outstanding := actual escrow for the single open channel) included.
+   chan_ok: every channel-state entry belongs to a registered channel (true initially, kept by all) *)
+Theorem c11_solvent_with_migrations : forall H cs w, WInv H w -> chan_ok (w_st w) -> Forall (honest_call2 H) cs ->
+  WInv H (wrun w cs) /\ chan_ok (w_st (wrun w cs)).
+Proof. exact solvent_history_all. Qed.
+
+Theorem c11_initial_chan_ok : forall m st, instantiate m = Ok st -> chan_ok st.
+Proof. exact instantiate_chan_ok. Qed.
 
 Example c11_nonvacuous :
   exists st, instantiate (mkInit 100 (Some 5) (Some 0) [] [1; 7]) = Ok st /\
@@ -59,3 +65,5 @@ Print Assumptions c11_solvent_meaning.
 Print Assumptions c11_initial.
 Print Assumptions c11_per_channel.
 Print Assumptions c11_foreign_nothing.
+Print Assumptions c11_solvent_with_migrations.
+Print Assumptions c11_initial_chan_ok.
